@@ -415,7 +415,7 @@ fn session(lines: &[String], tmpdir: &Path, emit: &mut dyn FnMut(String)) {
                 let got = if ans.starts_with("stop ") { ans.rsplit_once(' ').unwrap().0.to_string() } else { ans.clone() };
                 if got != want_s {
                     let key = if want_s == "killed-by-signal 6" { "death-by-signal-not-reported" }
-                        else if generation > 0 && prev_gen_died_by_signal && want.is_some() { "restart-after-death-by-signal-loses-breakpoints" }
+                        else if generation > 0 && prev_gen_died_by_signal { "restart-after-death-by-signal-is-not-a-fresh-start" }
                         else if generation > 0 && want.is_some() && !ans.starts_with("stop") { "user-breakpoint-not-hit-after-restart" }
                         else { "stop-is-not-the-projection-of-the-execution" };
                     s.fail(key, format!("{line}: debugger reports `{ans}`; the program's own site sequence restricted to the user breakpoints {:x?} says `{want_s}` (from site {from}, generation {generation})", bset));
@@ -443,13 +443,17 @@ fn session(lines: &[String], tmpdir: &Path, emit: &mut dyn FnMut(String)) {
             if generation > 0 || !attach { want.insert(lp.prog.entry); }
             let got: BTreeSet<u64> = dmap.keys().copied().collect();
             if got != want || dmap.values().any(|(_, l)| *l != 0xCC) {
-                s.fail("text-differs-from-elf-image-elsewhere-than-at-breakpoints", format!("after `{line}`: patched {:x?}, expected {:x?}", got, want));
+                let key = if generation > 0 && prev_gen_died_by_signal { "restart-after-death-by-signal-is-not-a-fresh-start" } else { "text-differs-from-elf-image-elsewhere-than-at-breakpoints" };
+                s.fail(key, format!("after `{line}`: patched {:x?}, expected {:x?}", got, want));
             }
         }
         if (matches!(t[1], "detach") && ans == "ok") || t[1] == "drop" {
             teardown_oracle(&mut s, t[1], &ans, cur_pid, cur_external, ph == Ph::Ended, &launched, detached, &pause, &ext_out, &ext_res, ext_pid);
         }
-        (s.emit)(format!("{ans} b={snap} {}", log.text));
+        // a generation created on top of a registry left over by a death by signal: what its clean-up pokes depends on
+        // hash-map iteration order (disable_all_breakpoints returns at the first address it cannot map): not compared
+        if generation > 0 && prev_gen_died_by_signal { (s.emit)(format!("{ans} b=* p=* x=*")); }
+        else { (s.emit)(format!("{ans} b={snap} {}", log.text)); }
     }
     // a history that does not end with `drop` (shrunk replays): drop now, same oracle, no model line
     if let Some(dd) = dbg.take() {
@@ -576,7 +580,27 @@ fn teardown_oracle(s: &mut Sess, cmd: &str, ans: &str, cur_pid: i32, cur_externa
     let _ = std::fs::remove_file(pause);
 }
 
+/// corpus files are written symbolically (independent of the addresses of this build of the debuggee):
+/// `C11 new <launch|attach> @ <threads> <e|a> <gatepos>` and `@a @b @c @d` (sites), `@q0..@q3` (quiet words)
+fn expand(req: &[String]) -> Vec<String> {
+    if !req.iter().any(|l| l.contains('@')) { return req.to_vec(); }
+    let lp = load_life();
+    req.iter().map(|l| {
+        let t: Vec<&str> = l.split(' ').collect();
+        if t.len() == 7 && t[1] == "new" && t[3] == "@" {
+            let nat = native(&lp, t[4].parse().unwrap_or(0), t[5]);
+            return new_line(&lp, &nat, t[2] == "attach", t[5], t[6].parse().unwrap_or(0));
+        }
+        t.iter().map(|x| match x.strip_prefix('@') {
+            Some(k) if lp.site.contains_key(k) => format!("{:x}", lp.site[k]),
+            Some(k) if k.len() == 2 && k.starts_with('q') => format!("{:x}", lp.quiet + 8 * (k.as_bytes()[1] - b'0') as u64),
+            _ => x.to_string(),
+        }).collect::<Vec<_>>().join(" ")
+    }).collect()
+}
+
 pub fn exec(req: &[String], out: &mut Out, tmpdir: &Path) {
+    let req = &expand(req)[..];
     let mut sessions: Vec<Vec<String>> = vec![];
     for l in req {
         if l.starts_with("C11 new ") || sessions.is_empty() { sessions.push(vec![]); }
